@@ -84,6 +84,28 @@ def r1(ctx):
                       witness=[norm(c) for c in rc])
             keyed = [n for n in walk_own(ra.node) if isinstance(n, ast.Subscript) and norm(n.value) == "self.received_fragments"]
             ctx.check(all(norm(n.slice) in (fid, "key") for n in keyed), "C06.R1", ra, "reassembly contexts are keyed by the fragment id", witness=sorted({norm(n.slice) for n in keyed}))
+            # ... and the names still mean what parsePayload returned: at every use on the store / lookup / receive / completeness /
+            # delivery path the only reaching definition is the parsePayload unpacking (a loop variable re-using the name would
+            # attribute the fragment to another message's context)
+            from .common import bound_by
+            stale = []
+            for n in walk_own(ra.node):
+                if isinstance(n, ast.Name) and isinstance(n.ctx, ast.Load) and n.id in (fid, idx, cnt, msg):
+                    # uses inside a comprehension that re-binds the name are scoped to it
+                    inner = False
+                    p = n
+                    while p is not ra.node:
+                        p = p._parent
+                        if isinstance(p, (ast.ListComp, ast.SetComp, ast.DictComp, ast.GeneratorExp)) and any(n.id in [x.id for x in ast.walk(g.target) if isinstance(x, ast.Name)] for g in p.generators):
+                            inner = True
+                    # the cleanup loop may use its own binding of the name for its own deletes
+                    own_loop = any(isinstance(q, ast.For) and n.id in [x.id for x in ast.walk(q.target) if isinstance(x, ast.Name)] for q in _parents(n, ra.node))
+                    if inner or own_loop:
+                        continue
+                    if not bound_by(ra, n.id, n, pc[0]._parent):
+                        stale.append("%s at line %d" % (n.id, n.lineno))
+            ctx.check(not stale, "C06.R1", ra, "id, index, count and bytes used for reassembly are the ones parsed from this fragment (single reaching definition)",
+                      "a later re-binding of the name (for example a loop variable) silently redirects the fragment", witness=stale)
     frinit = ctx.fn("connection:FragmentReceiver.__init__")
     assigns = {norm(n.targets[0]): norm(n.value) for n in walk_own(frinit.node) if isinstance(n, ast.Assign)}
     ctx.check(assigns.get("self.fragments") == "[None] * %s" % frinit.params[2], "C06.R1", frinit, "slots = [None] * count", "one slot per announced fragment", witness=assigns.get("self.fragments"))
@@ -312,4 +334,9 @@ def r5(ctx):
     ctx.check([a.fi.qual for a in ws] == ["connection:FragmentSender.__init__"], "C06.R5", "connection:FragmentSender.__init__", "frag_id is set once", witness=[a.fi.qual for a in ws])
 
 
-RULES = [("C06.R1", r1), ("C06.R2", r2), ("C06.R3", r3), ("C06.R4", r4), ("C06.R5", r5)]
+def r_enum(ctx):
+    from .common import enum_identity
+    enum_identity(ctx, "C06.R6", ('connection',))
+
+
+RULES = [("C06.R1", r1), ("C06.R2", r2), ("C06.R3", r3), ("C06.R4", r4), ("C06.R5", r5), ("C06.R6", r_enum)]
